@@ -1,6 +1,8 @@
 package replay
 
 import (
+	"os"
+	"runtime/debug"
 	"encoding/json"
 	"fmt"
 	"math"
@@ -21,6 +23,9 @@ func (w *World) arm(call int64) func() (fired bool, seen int64) {
 		c := atomic.AddInt64(&n, 1)
 		if call > 0 && c == call {
 			atomic.StoreInt64(&hit, 1)
+			if os.Getenv("VERIF_FAULT_TRACE") != "" {
+				fmt.Fprintf(os.Stderr, "FAULT at storage call %d (%s)\n%s\n", c, kind, debug.Stack())
+			}
 			return dbwrap.ErrInjected
 		}
 		return nil
